@@ -583,6 +583,12 @@ fn next_fcnt_down(last: Option<u32>, wire: u16) -> Option<u32> {
     }
 }
 
+/// Verification hook: public wrapper of the downlink counter reconstruction.
+#[cfg(feature = "verif-hooks")]
+pub fn verif_next_fcnt_down(last: Option<u32>, wire: u16) -> Option<u32> {
+    next_fcnt_down(last, wire)
+}
+
 #[cfg(test)]
 mod tests {
     use super::next_fcnt_down;
